@@ -57,8 +57,17 @@ class Injector:
       raise InjectedIOError('injected I/O error')
     raise Crash()
 
+  def _check_alive(self):
+    # A crash is a process death.  If the code under test swallowed the unwinding exception (e.g. it was
+    # raised inside a worker thread and stored in a Future nobody reads), nothing it does afterwards can
+    # have any effect: every later event dies again.  (An injected OSError is an ordinary exception: the
+    # process lives on.)
+    if self.fired and self.mode != 'ioerror':
+      raise Crash()
+
   def event(self, kind, info=None):
     """A non-write step; the crash happens *before* it executes."""
+    self._check_alive()
     i = self.n
     self.n += 1
     self.events.append((kind, info))
@@ -69,6 +78,7 @@ class Injector:
 
   def write(self, kind, do_write, data, info=None):
     """A write of `data` through `do_write`; a crash lets `prefix` bytes through."""
+    self._check_alive()
     i = self.n
     self.n += 1
     self.events.append((kind, (info, len(data))))
@@ -152,6 +162,20 @@ class WFile:
         return None
       self._drain()
     return self._f.flush()
+
+  # a buffered writer flushes its buffer before it seeks or truncates; tell() counts the buffered bytes
+  def seek(self, *a, **k):
+    if self._inj.hard and not (self._inj.dead or self._closed):
+      self._drain()
+    return self._f.seek(*a, **k)
+
+  def truncate(self, *a, **k):
+    if self._inj.hard and not (self._inj.dead or self._closed):
+      self._drain()
+    return self._f.truncate(*a, **k)
+
+  def tell(self):
+    return self._f.tell() + (self.pending_len() if self._inj.hard else 0)
 
   def close(self):
     if not self._inj.hard:
